@@ -200,6 +200,34 @@ def r04_3(prog: Program, rep):
            naked[0].lineno if naked else h.lineno)
 
 
+def r04_15(prog: Program, rep):
+    """VALIDATION BEFORE VISIBILITY ON DISK.  A pack is a member of the repository - for every other process, for C git, for another
+    DiskObjectStore on the same directory - from the moment pack-<sha>.pack has its pack-<sha>.idx next to it.  The object-level
+    validation of an incoming pack (the pass that parses every object, the only place where a malformed tree or tag is noticed)
+    therefore precedes the commit of the index file in _complete_pack; done afterwards, a pack that ends up rejected is a usable
+    pack while it is being checked (R04.1/R04.3 decide that it is removed again and never enters THIS store's cache)."""
+    from sa.common import is_gitfile_call, gitfile_mode
+    f = prog.func(OS_PY, "DiskObjectStore._complete_pack")
+    m = f.module
+    g = cfg_of(prog, f)
+    acq = [i for i, n in g.nodes.items() if n.kind == "with_enter"
+           and is_gitfile_call(prog, m, n.ast.items[n.info].context_expr) and "w" in (gitfile_mode(n.ast.items[n.info].context_expr) or "")]
+    if not acq:
+        raise AnalysisError("_complete_pack: index written through GitFile not found")
+    with_stmt = g.nodes[acq[0]].ast
+    commit = [i for i, n in g.nodes.items() if n.kind == "with_exit_ok" and n.ast is with_stmt]
+    infl = [i for i, n in g.nodes.items() if n.kind == "for_init" and "PackInflater" in norm(n.ast.iter)]
+    infl += [i for i, n in g.nodes.items() for c in node_calls(n) if callee_name(c) in ("list", "tuple") and c.args and "PackInflater" in norm(c.args[0])]
+    if not commit or not infl:
+        raise AnalysisError(f"_complete_pack: index commit ({len(commit)}) or the object-level validation pass ({len(infl)}) not found")
+    bad = must_pass(g, commit, infl)
+    rep.ob("R04.15", OS_PY, f.qual, "every object of the incoming pack is parsed before its index file is committed (the pack becomes usable on disk)",
+           not bad, "the .pack/.idx pair is in place before the objects have been parsed: for the duration of the validation pass every other reader "
+           "of the repository (another process, C git, a second store object) sees and can use the objects of a pack that is then rejected and "
+           "removed - a second ingestion of the same pack takes the 'already there' return on the strength of the unvalidated one",
+           g.nodes[commit[0]].line)
+
+
 def r04_4(prog: Program, rep):
     n = 0
     m = prog.module(OS_PY)
@@ -618,6 +646,7 @@ def run(prog: Program, rep, tier="quick"):
     rep.rule("R04.14", "a truncated loose object is an error: the zlib stream's eof is tested before the data is returned")
     rep.rule("R04.3", "rollback of _complete_pack removes every created file, closes, re-raises")
     rep.rule("R04.4", "NEVER-BEFORE: no store mutation while the incoming pack is still being consumed")
+    rep.rule("R04.15", "VALIDATION BEFORE VISIBILITY ON DISK: every object of an incoming pack is parsed before the .idx is committed next to the .pack")
     rep.rule("R04.5", "every decompress call passes an output bound; zlib chunk readers agree; ofs base offset zero-checked")
     rep.rule("R04.6", "object names in indexes come from hashing content")
     rep.rule("R04.7", "delta-chain walk is cycle guarded")
@@ -633,6 +662,7 @@ def run(prog: Program, rep, tier="quick"):
     r04_3(prog, rep)
     r04_14(prog, rep)
     r04_4(prog, rep)
+    r04_15(prog, rep)
     r04_5(prog, rep)
     r04_6(prog, rep)
     r04_7(prog, rep)
